@@ -37,8 +37,11 @@ let run (_prefix : string) (cfg : config) (parts : string list) (_src : string)
     on parts "directives" (fun () ->
       match ast_in, ast_out with
       | Some i, Some o ->
+          let ndir t = List.length (directives_of (program_body t))
+                       + List.fold_left (fun a (_, st) -> a + List.length (directives_of st)) 0 (blocks_of t) in
           [ ("directives_ok",
-             JB (directives_ok (var_prefix cfg) cfg.c_prefix_stmts (modified_of ast_in ast_out) i o)) ]
+             JB (directives_ok (var_prefix cfg) cfg.c_prefix_stmts (modified_of ast_in ast_out) i o));
+            ("in_directives", JI (ndir i)); ("out_directives", JI (ndir o)) ]
       | _, _ -> []) in
   let erase_part =
     on parts "erase" (fun () ->
@@ -92,4 +95,21 @@ let run (_prefix : string) (cfg : config) (parts : string list) (_src : string)
         | None -> []
         | Some t -> [ (name ^ "_shapes", strs (shape_issues (var_prefix cfg) t)) ] in
       one "out" ast_out) in
-  hooks @ classes @ directives @ erase_part @ sites_part @ hygiene_part @ shapes_part
+  let roundtrip_part =
+    on parts "roundtrip" (fun () ->
+      match ast_out, ast_reparsed with
+      | Some o, Some r ->
+          if roundtrip_ok o r then [ ("roundtrip_ok", JB true) ]
+          else begin
+            let a = norm_print o and b = norm_print r in
+            let path = match first_diff_nospan a b with Some p -> List.map int_of_nat p | None -> [] in
+            let rec at n p = match p, n with
+              | [], _ -> n
+              | i :: p', Node (_, cs) -> (try at (List.nth cs i) p' with _ -> n) in
+            let parent = match List.rev path with _ :: r -> List.rev r | [] -> [] in
+            [ ("roundtrip_ok", JB false);
+              ("roundtrip_diff_out", JS (trunc (sexp_string (at a parent))));
+              ("roundtrip_diff_reparsed", JS (trunc (sexp_string (at b parent)))) ]
+          end
+      | _, _ -> []) in
+  hooks @ classes @ directives @ erase_part @ sites_part @ hygiene_part @ shapes_part @ roundtrip_part
